@@ -63,7 +63,7 @@ type poOut struct {
 }
 
 func poCtorMR() (*poA, *poB) { return poMake() }
-func poCtorOut() poOut        { a, b := poMake(); return poOut{A: a, B: b} }
+func poCtorOut() poOut       { a, b := poMake(); return poOut{A: a, B: b} }
 
 // RunPartialOutputs: forms x lifetimes; prop selects which findings are reported.
 func RunPartialOutputs(c *eng.Ctx, prop string, next func() (int, bool)) {
